@@ -58,7 +58,10 @@ def check_coarse_grid(case):
     end = start + pd.Timedelta(days, 'd')
     for unit in ('h', 'd'):
         tg = eao.assets.Timegrid(start, end, freq=case['fine'], main_time_unit=unit, timezone=case['tz'])
-        tg.set_restricted_grid(start, end, case['coarse'])
+        # window of the restricted grid: the grid's own, or sticking out of it by a fraction of a coarse step
+        ws = start + pd.Timedelta(case.get('woff', (0, 0))[0], 'h')
+        we = end + pd.Timedelta(case.get('woff', (0, 0))[1], 'h')
+        tg.set_restricted_grid(ws, we, case['coarse'])
         r = tg.restricted
         members = [list(map(int, m)) for m in r.I_minor_in_major]
         flat = [i for m in members for i in m]
@@ -69,7 +72,7 @@ def check_coarse_grid(case):
         if case.get('whole') and covered != set(range(tg.T)):
             out.append(fail('C19.coarse.partitions_the_whole_window', 'basic_classes:Timegrid.__init__', case, params,
                             f'fine steps of the window in no coarse interval: {sorted(set(range(tg.T)) - covered)[:8]} ... ({len(set(range(tg.T)) - covered)} of {tg.T})'))
-        pts = pd.date_range(start=tg.start, end=tg.end, freq=case['coarse'], tz=tg.tz)
+        pts = pd.date_range(start=r.start, end=r.end, freq=case['coarse'])
         inside = [i for i, t in enumerate(tg.timepoints) if len(pts) > 1 and pts[0] <= t < pts[-1]]
         if set(inside) != covered:
             out.append(fail('C19.coarse.noloss', 'basic_classes:Timegrid.__init__', case, params,
